@@ -165,10 +165,29 @@ pub fn c15(rep: &mut Report, cfg: &Cfg) {
             let v = if j == 2 && rng.chance(1, 2) { rng.below(64) as u32 } else { v };
             c.patch32(argp.wrapping_add(4 * j) & 0xffffff, v);
         }
+        let mut textclass = 0;
+        if k % 8 == 3 && c.er[0] == 104 {
+            // a well-formed write of a long valid text (the host side has its own buffer sizes)
+            let len = match rng.below(3) {
+                0 => *rng.pick(&[1024usize, 4096, 8192, 16384, 65536]) - 3 + rng.below(7) as usize,
+                _ => rng.below(20000) as usize,
+            };
+            let text = super::syscall::utf8_text(&mut rng, len);
+            let buf = 0x480000u32 + rng.below(0x1000) as u32;
+            for (i, b) in text.iter().enumerate() {
+                c.patches.push((buf + i as u32, *b));
+            }
+            let argp = 0xffe900u32;
+            c.er[1] = argp;
+            c.patch32(argp, 1);
+            c.patch32(argp + 4, buf);
+            c.patch32(argp + 8, len as u32);
+            textclass = 1 + (len as u64 / 4096).min(16);
+        }
         c.ccr = rng.u8();
         let obs = lock.run(&c);
         rep.evaluations += 1;
-        rep.cell("syscall-id-argclass-profile", &[c.er[0] as u64 % 7, k % 5, prof]);
+        rep.cell("syscall-id-argclass-profile", &[c.er[0] as u64 % 7, k % 5, prof, textclass]);
         record_panic(rep, "step", &obs.real, "system call", || format!("TRAPA #0 ER0={} {}", c.er[0], c.to_line()), || format!("check=C15 kind=step {}", c.to_line()));
     }
     // ---- (g) every form under guest-programmed maximal wait states, through the real run()
